@@ -52,6 +52,7 @@ CompVarState(G, i)  == Mk(G, LAMBDA sl : G.unit[sl] \cap {Cpy(sl, i)})      \* c
 ProjectVar(G, R, i) == LET r == TLCEval(R) IN Mk(G, LAMBDA sl : UNION {r[[sl EXCEPT ![1 + i] = v]] : v \in G.St})   \* project_out_hctl_var
 ProjectState(G, R)  == LET r == TLCEval(R) IN Mk(G, LAMBDA sl : IF r[sl] = {} THEN {} ELSE G.St)    \* project_out_bn_vars
 (* create_comparator_two_vars is a plain bitwise equivalence (no unit set) *)
+CompTwoVars(G, a, b) == Mk(G, LAMBDA sl : IF Cpy(sl, a) = Cpy(sl, b) THEN G.St ELSE {})
 Substitute(G, R, a, b) ==        \* substitute_hctl_var: R /\ (x_a = x_b), then exists x_a
   IF a = b THEN R
   ELSE LET r == TLCEval(R) IN ProjectVar(G, Mk(G, LAMBDA sl : IF Cpy(sl, a) = Cpy(sl, b) THEN r[sl] ELSE {}), a)
@@ -81,6 +82,13 @@ FirstUpdate(G, A, Z, v) ==      \* [found, set] for the highest variable <= v wi
 RECURSIVE SaturateEU(_, _, _)
 SaturateEU(G, A, Z) ==
   LET z == TLCEval(Z) f == FirstUpdate(G, A, z, G.nv) IN IF f.found THEN SaturateEU(G, A, TLCEval(f.set)) ELSE z
+(* eval_eu / eval_ef (the classical loops through EX; not used by the evaluator any more) *)
+RECURSIVE LfpEUx(_, _, _, _)
+LfpEUx(G, A, Z, st) == LET z == TLCEval(Z) Z2 == TLCEval(Cup(G, z, Cap(G, A, EX(G, z, st)))) IN IF Z2 = z THEN z ELSE LfpEUx(G, A, Z2, st)
+EUx(G, A, B, st) == LfpEUx(G, TLCEval(A), B, st)
+RECURSIVE LfpEFx(_, _, _)
+LfpEFx(G, Z, st) == LET z == TLCEval(Z) Z2 == TLCEval(Cup(G, z, EX(G, z, st))) IN IF Z2 = z THEN z ELSE LfpEFx(G, Z2, st)
+EFx(G, R, st) == LfpEFx(G, R, st)
 EF(G, R)      == EU(G, G.unit, R)
 AG(G, R)      == Neg(G, EF(G, Neg(G, R)))
 RECURSIVE GfpEG(_, _, _)
@@ -89,7 +97,12 @@ EG(G, R, st)  == GfpEG(G, R, st)
 AF(G, R, st)  == Neg(G, EG(G, Neg(G, R), st))
 RECURSIVE LfpAU(_, _, _, _)
 LfpAU(G, A, Z, st) == LET z == TLCEval(Z) Z2 == TLCEval(Cup(G, z, Cap(G, A, AX(G, z, st)))) IN IF Z2 = z THEN z ELSE LfpAU(G, A, Z2, st)
-AU(G, A, B, st) == LfpAU(G, TLCEval(A), B, st)
+(* eval_au AS WRITTEN: the loop `old := B; new := {}; while old # new ...` does not run at all for B = {},   *)
+(* so A[A U {}] = {} even where AX {} is not empty.  AX {} = the dead ends outside st: empty in standard     *)
+(* evaluation (st = all steady states, unit closed under transitions), so there this IS the least fixed     *)
+(* point; with st = {} (the self-loop-free variant) or a unit set that is not closed it is not.             *)
+(* (Found by Trace_Rel: the primitive-level replay on arbitrary arguments.)                                  *)
+AU(G, A, B, st) == LET b == TLCEval(B) IN IF IsEmpty(G, b) THEN Empty(G) ELSE LfpAU(G, TLCEval(A), b, st)
 EW(G, A, B, st) == LET nb == TLCEval(Neg(G, B)) IN Neg(G, AU(G, nb, Cap(G, Neg(G, A), nb), st))
 AW(G, A, B)     == LET nb == TLCEval(Neg(G, B)) IN Neg(G, EU(G, nb, Cap(G, Neg(G, A), nb)))
 (* hybrid operators *)
@@ -105,5 +118,6 @@ Attractors(G) == LET att == TLCEval([c \in G.Cs |-> AttractorStates(G, c)]) IN M
 SteadyOf(G)   == Mk(G, LAMBDA sl : {s \in G.unit[sl] : G.succ[Col(sl)][s] = {}})
 
 (* explicit tuples <<colour, state, x_1, ..., x_k>> of a relation (for comparison with recorded sets) *)
+FromTuples(G, T) == LET tt == TLCEval(T) IN Mk(G, LAMBDA sl : {s \in G.St : (<<Col(sl), s>> \o Tail(sl)) \in tt})
 TuplesOf(G, R) == UNION {{<<Col(sl), s>> \o Tail(sl) : s \in R[sl]} : sl \in G.slices}
 =============================================================================
